@@ -5,14 +5,6 @@ From SAV.orm Require Import SessTxn SessTxnBase SessTxnSpec SessTxnInv SessTxnOp
   SessTxnShift SessTxnStmts SessTxnFlush SessTxnDbInv SessTxnCore SessTxnFlushCore SessTxnTx FlushFail.
 Open Scope nat_scope.
 
-Lemma bind_assoc : forall (a b c : M) st, ((a ;; b) ;; c) st = (a ;; (b ;; c)) st.
-Proof. intros a b c st. unfold bind. destruct (a st) as [[| |] s1]; reflexivity. Qed.
-Lemma bind_assoc4 : forall (a b c d : M) st, ((a ;; (b ;; c)) ;; d) st = (a ;; (b ;; (c ;; d))) st.
-Proof.
-  intros a b c d st. unfold bind. destruct (a st) as [[| |] s1]; try reflexivity.
-  destruct (b s1) as [[| |] s2]; reflexivity.
-Qed.
-
 (* every crash point is covered by the error-path analysis of Session._flush *)
 Lemma fault_inner_spec : forall ft, InnerSpec (fault_inner ft).
 Proof.
